@@ -15,6 +15,7 @@ pub mod c13;
 pub mod c14;
 pub mod c15;
 pub mod c17;
+pub mod c18;
 pub mod c19;
 pub mod c20;
 pub mod cfgcheck;
@@ -43,6 +44,7 @@ pub fn lookup(id: &str) -> Option<Entry> {
         "C15" => Entry { level: "exploration", run: c15::run, replay: c15::replay },
         "C16" => Entry { level: "exploration", run: c16::run, replay: c16::replay },
         "C17" => Entry { level: "model_checking", run: c17::run, replay: c17::replay },
+        "C18" => Entry { level: "exploration", run: c18::run, replay: c18::replay },
         "C19" => Entry { level: "model_checking", run: c19::run, replay: c19::replay },
         "C20" => Entry { level: "model_checking", run: c20::run, replay: c20::replay },
         _ => return None,
